@@ -256,6 +256,12 @@ def run(ctx):
     for i in range(4 if ctx.quick else 80):
         explore2.explore(ctx, "C02", r.fork(), kindsA=(["new", "set+state", "claim_oldest", "sequence", "plan", "compact", "prune", "claim_id"][i % 8],), kindsB=("compact", "plan"),
                          max_points=(5 if ctx.quick else 40), legacy=True, b_modes=("complete",))
+    # an acknowledged write is in the log: when the operating system refuses or cuts short the write (ENOSPC, EIO, file size limit), the command
+    # must not report success — the next command would decide on a state its predecessor was told it had changed
+    from . import c10
+    rf = gen.Rng(ctx.seed * 1000003 + 202)
+    for i in range(3 if ctx.quick else 40):
+        c10.io_faults(ctx, rf.fork(), prop="C02", torn=(i % 3 == 2))
     ctx.cov["rule"] = ("system-call programs of every writer kind (one exclusive non-blocking flock; the log read after it and before the single write / tmp+rename; unlock last); pairs of "
                        "generated commands A ∥ B with A parked (strace SIGSTOP) at first/middle/last (thorough: every) point while holding the lock: B must fail fast with lock busy and write nothing, "
                        "A's outcome must equal A alone; 2–5 commands started together: whole JSON lines, no interleaving, and the final state equals the acknowledged commands run one at "
